@@ -30,6 +30,8 @@ POINTER_CALLS = {"point_towards", "release_pointer", "update_set_incoming_pointe
 
 
 def check(model: Model, rep: Report, tier: str):
+    from .common import depth_bound_assumption
+    depth_bound_assumption(model, rep)
     with rep.isolated():
         l1(model, rep)
     with rep.isolated():
